@@ -260,6 +260,9 @@ def step (ds : DS) (op impl : String) : DS × StepOut :=
     let orc := (if ipre.startsWith "invalid-type" then [] else ["c02.wrong-type-not-rejected"]) ++
                (if ipre.endsWith "actor-died" then ["c02.wrong-type-disturbed-actor"] else [])
     finish ds.m "invalid-type undisturbed" ds.o true orc
+  -- an op the harness refused (it names an actor / supervisor that does not exist — only a
+  -- shrunk replay can contain one) is not an op: nothing happened, nothing is judged
+  if ipre == "bad-actor" || ipre == "bad-sup" then (ds, { model := ipre }) else
   match words op with
   | ["case"] => ({}, { model := "ok" })
   | ["spawn"] => run1 .spawn "ok" { ds.o with asup := ds.o.asup ++ [none] } false
